@@ -8,6 +8,7 @@ import common as C
 import verde as vd
 
 ID = "C04"
+TRANSLATED = "fit"          # the mathematics the invariances rest on is stated about the regenerated least_squares / Trend.fit / Trend.predict (Props/C04.lean: src_*); layout and dtype are observed on the real gridders
 FILES = ["verde/base/utils.py", "verde/spline.py", "verde/trend.py", "verde/vector.py", "verde/neighbors.py", "verde/scipygridder.py"]
 RULE = ("corpus + seeded integer-valued point sets in general position for every gridder (Trend 0..3, Spline damped/undamped, VectorSpline2D, KNeighbors "
         "mean/median, Linear, Cubic): the base fit is compared with the same fit after (1) a random permutation of the points, (2) 2-D C-ordered, "
